@@ -2,10 +2,11 @@ SPECIFICATION Spec
 CONSTANTS
   NConn = 3
   MaxReq = 2
+  MaxReq2 = 1
   Protos <- AllProtos
-  TlsModes <- BothBool
+  TlsModes <- OnlyFalse
   MakeModes <- OnlyFalse
-  MaxFaults = 2
+  MaxFaults = 1
   AsBuiltD8 = FALSE
   GenMode = FALSE
   GenLen = 0
